@@ -154,6 +154,14 @@ inline void Exec::cal_params(int ki) {
         int endn = 0;
         if (ok) { int e = pi; while (K.params[e].kind == ParamRec::UNKNOWN || K.params[e].kind == ParamRec::CORRELATED) e = K.params[e].other; if (K.params[e].kind == ParamRec::VECTOR) endn = (int)K.params[e].fv.size(); }
         int how = c.weighted({5, 3, 2, 1, 1, 1, 1, 1});
+        if (how == 2 && ok) {      // grid borrowed from the guess: prefer a correlate whose chain ends in a vector parameter
+            std::vector<int> cand;
+            for (size_t q = 0; q < K.params.size(); q++) if (!K.params[q].deleted) {
+                int e = (int)q; while (K.params[e].kind == ParamRec::UNKNOWN || K.params[e].kind == ParamRec::CORRELATED) e = K.params[e].other;
+                if (K.params[e].kind == ParamRec::VECTOR && K.params[e].fv.size() >= 2) cand.push_back((int)q);
+            }
+            if (!cand.empty()) { pi = cand[c.draw(cand.size())]; h = K.params[pi].h; endn = 0; int e = pi; while (K.params[e].kind == ParamRec::UNKNOWN || K.params[e].kind == ParamRec::CORRELATED) e = K.params[e].other; endn = (int)K.params[e].fv.size(); }
+        }
         int n = 1; bool fnull = true; Expect ex = XP_OK; const char *w2 = "valid";
         std::vector<double> sfv, sv;
         switch (how) {
